@@ -63,6 +63,7 @@ func partialGlobs(p *scen.Project) {
 	scen.Set(p.Config, "commonConfig.controllerGlobs", out)
 }
 
+
 func pick(cases []scen.Case, pred func(scen.Case) bool, n int) []scen.Case {
 	var out []scen.Case
 	for _, c := range cases {
@@ -86,6 +87,14 @@ func projects(tier string) []project {
 	fa := func(name string) func(scen.Case) bool {
 		return func(c scen.Case) bool { return c.Features["family"] == name }
 	}
+	// an enum whose constants repeat a value (an alias of a default, a synonym), used as a parameter and as a field
+	dupEnum := func() scen.Case {
+		id := "q0001"
+		decl := "type St" + id + " string\n\nconst (\n\tSt" + id + "Active St" + id + " = \"active\"\n\tSt" + id + "Enabled St" + id + " = \"active\"\n\tSt" + id + "Retired St" + id + " = \"retired\"\n\tSt" + id + "Zeta St" + id + " = St" + id + "Retired\n)\n\ntype Holder" + id + " struct {\n\tS St" + id + " `json:\"s\"`\n}\n"
+		m := scen.Method{Name: "Op" + id, Verb: "GET", Route: scen.S("/op"), Params: []scen.Param{{Name: "st", Type: "St" + id, In: "Query"}}, Ret: "Holder" + id}
+		ctl := scen.Controller{Name: "C" + id, Pkg: id, Prefix: scen.S("/" + id), Tag: scen.S("T" + id), Methods: []scen.Method{m}}
+		return scen.Case{ID: id, Unit: scen.Unit{Controllers: []scen.Controller{ctl}, Decls: map[string]string{id: decl}}, Features: map[string]string{"family": "enum-with-repeated-values"}}
+	}()
 	ps := []project{
 		{Name: "signatures: every return shape (incl. map), map/struct bodies, 3-parameter orders", Cases: append(append(
 			pick(sig.Cases, func(c scen.Case) bool {
@@ -95,7 +104,7 @@ func projects(tier string) []project {
 				return c.Features["family"] == "sig-1param" && c.Features["in"] == "Body" && c.Features["kind"] != "body-string" && c.Features["validate"] == "" && c.Features["ptr"] == "false"
 			}, 8)...),
 			pick(sig.Cases, fa("sig-3param"), 10)...)},
-		{Name: "types: graphs without mutual recursion, leaves, cross-package", Cases: append(append(pick(typ.Cases, func(c scen.Case) bool { return c.Features["family"] == "type-graph" && c.Features["mutual"] == "false" }, 24), pick(typ.Cases, fa("type-leaf"), 14)...), pick(typ.Cases, fa("type-cross-package"), 1)...)},
+		{Name: "types: graphs without mutual recursion, leaves, cross-package, an enum with repeated values", Cases: append(append(pick(typ.Cases, func(c scen.Case) bool { return c.Features["family"] == "type-graph" && c.Features["mutual"] == "false" }, 24), pick(typ.Cases, fa("type-leaf"), 14)...), append(pick(typ.Cases, fa("type-cross-package"), 1), dupEnum)...)},
 		{Name: "layout and security: prefixes, verbs, hidden, security shapes (with route-conflict warnings), controllers whose methods live in other files", Cases: append(append(pick(lay, func(c scen.Case) bool { return c.Features["prefix"] == "/§/a" }, 20), pick(sec.Cases, func(scen.Case) bool { return true }, 12)...), pick(layAll, otherFile, 6)...)},
 	}
 	ps = append(ps, project{Name: "partially globbed packages: every package also holds a controller file outside controllerGlobs",
@@ -112,6 +121,18 @@ func projects(tier string) []project {
 		)
 	}
 	return ps
+}
+
+func firstNonEmpty(ss ...string) string {
+	for _, s := range ss {
+		if s != "" {
+			if len(s) > 400 {
+				s = s[:400]
+			}
+			return s
+		}
+	}
+	return "(no panic text recorded)"
 }
 
 func Main(tier, replay string) {
@@ -153,6 +174,11 @@ func Main(tier, replay string) {
 		ref := scen.RunJob(scen.Job{Dir: dir, Config: "./gleece.config.json", Histories: [][]string{{"R"}, {"G", "V"}, {"G"}}})
 		if ref.Crashed != "" || len(ref.Histories) != 3 {
 			core.Harness("reference run failed for project %q: %s", p.Name, ref.FailureSummary())
+		}
+		if len(ref.Histories[0].Steps) < 1 || len(ref.Histories[1].Steps) < 2 {
+			// even a brand-new pipeline does not get through one analysis of an accepted project
+			run.Report(core.Violation{Oracle: "history-runs-to-completion", Features: map[string]string{"project": p.Name, "session": "fresh"}, What: "a brand-new pipeline panicked while analysing the project: " + firstNonEmpty(ref.Histories[0].Panic, ref.Histories[1].Panic), Case: map[string]any{"project": p.Name, "history": []string{"R"}}})
+			continue
 		}
 		refMeta := ref.Histories[0].Steps[0]
 		refDiag := ref.Histories[1].Steps[1]
